@@ -191,6 +191,7 @@ func Load(dir, goarch, modPath string, minPkgs int) (*Ctx, error) {
 			// xt/ssa/split.go. Nothing on the tree the rules were written for qualifies.
 			// (the two feed each other: a split turns the index of a table read into a constant, a table read that
 			// became a φ of constants is the next merge to split)
+			c.Unrolled = append(c.Unrolled, ssa.ThreadSwitchNilTests(c.ModFuncs, 6)...)
 			ssa.CanonCompares(c.ModFuncs)
 			for round := 0; round < 3; round++ {
 				n1 := ct.Rewrite(c.ModFuncs, true)
